@@ -83,6 +83,10 @@ func (s c12Store) vaa() *vaa.VAA {
 	for i := 0; i < nsig; i++ {
 		v.AddSignature(vh.Key(i), uint8(i))
 	}
+	if s.Var%3 == 2 && nsig >= 2 {
+		// the store keeps what it is given: a VAA whose signatures are not in ascending guardian order comes back as it went in
+		v.Signatures[0], v.Signatures[nsig-1] = v.Signatures[nsig-1], v.Signatures[0]
+	}
 	return v
 }
 
